@@ -37,7 +37,7 @@ _CAP = {"reads": [], "installed": False, "hits": 0}
 
 
 def lanes(tier):
-    return [("plain", "plain", 160 if tier == "quick" else 10000)]
+    return [("plain", "plain", 480 if tier == "quick" else 10000)]
 
 
 def _install():
